@@ -7,3 +7,11 @@ import CompmechVerif.Props.C02
 #print axioms Compmech.Panel.C02.k0y1y2_entry_eq_hessian_cpanel
 #print axioms Compmech.Panel.C02.k0_entry_eq_hessian_kpanel
 #print axioms Compmech.Panel.C02.k0y1y2_entry_eq_hessian_kpanel
+#print axioms Compmech.Panel.C02.k0_entry_symm_plate
+#print axioms Compmech.Panel.C02.k0y1y2_entry_symm_plate
+#print axioms Compmech.Panel.C02.k0_entry_symm_plate_w
+#print axioms Compmech.Panel.C02.k0y1y2_entry_symm_plate_w
+#print axioms Compmech.Panel.C02.k0_entry_symm_cpanel
+#print axioms Compmech.Panel.C02.k0y1y2_entry_symm_cpanel
+#print axioms Compmech.Panel.C02.k0_entry_symm_kpanel
+#print axioms Compmech.Panel.C02.k0y1y2_entry_symm_kpanel
